@@ -232,8 +232,23 @@ def loguniform(rng, lo, hi, size=None):
 # ---------------------------------------------------------------------
 # call-history purity monitor
 # ---------------------------------------------------------------------
-def purity_check(ctx, rng, thunks, mon="purity", rounds=2):
+def _scribble(y):
+    """overwrite a returned value in place (the caller owns what a pure function returns)"""
+    if isinstance(y, (tuple, list)):
+        for v in y:
+            _scribble(v)
+    elif isinstance(y, np.ndarray) and y.flags.writeable and y.size:
+        try:
+            y[...] = 12345.678 if y.dtype.kind in "fc" else 12345
+        except Exception:
+            pass
+
+
+def purity_check(ctx, rng, thunks, mon="purity", rounds=2, scribble=False):
     """thunks: list of (site, description, callable without arguments) of functions that are pure by their contract.
+    scribble=True: every returned array is overwritten in place after it was recorded (what a caller doing
+    ``A[:] = A @ Exp(dpsi)`` does): a function that hands out a reference to shared state instead of a fresh array is then
+    seen at the next evaluation.
     Every thunk is evaluated once, then all of them again `rounds` times in seeded random order; a result that differs
     (bitwise, NaNs equal) from the first evaluation means the function's value depends on what was evaluated before -
     a memo keyed on too little, an array shared between calls and modified in place, a stateful fast path."""
@@ -249,13 +264,19 @@ def purity_check(ctx, rng, thunks, mon="purity", rounds=2):
 
     first = []
     for site, desc, f in thunks:
-        first.append(norm(f()))
+        y0 = f()
+        first.append(norm(y0))
+        if scribble:
+            _scribble(y0)       # a result that aliases module state or another result is destroyed here - and must not matter
     bad = set()
     for _ in range(rounds):
         for i in rng.permutation(len(thunks)):
             site, desc, f = thunks[int(i)]
             ctx.mon(mon)
-            y = norm(f())
+            y0 = f()
+            y = norm(y0)
+            if scribble:
+                _scribble(y0)
             if not same(y, first[int(i)]) and int(i) not in bad:
                 bad.add(int(i))
                 ctx.violation(site, "repeated evaluation with identical arguments returns different values (the result depends on the call history)",
